@@ -66,6 +66,214 @@ def extract_translate_sizes(repo: Path):
     raise TranslationError('get_structuring_elem not found')
 
 
+# ----------------------------------------------------------------------------------------------
+# C20: colour matrices, transfer-function constants and np.choose selections of colors.py
+
+def _dec(node):
+    """a numeric literal (possibly negated) as (python float, exact decimal string)"""
+    neg = False
+    if isinstance(node, ast.UnaryOp) and isinstance(node.op, ast.USub):
+        neg, node = True, node.operand
+    if not (isinstance(node, ast.Constant) and isinstance(node.value, (int, float)) and not isinstance(node.value, bool)):
+        raise TranslationError(f'numeric literal expected, got {ast.dump(node)[:80]}')
+    from fractions import Fraction
+    q = Fraction(repr(node.value))            # repr is the shortest decimal that round-trips: the literal's value
+    return -q if neg else q
+
+
+def _func(tree, name):
+    for node in ast.walk(tree):
+        if isinstance(node, ast.FunctionDef) and node.name == name:
+            return node
+    raise TranslationError(f'function {name} not found')
+
+
+def _np_array_literal(node):
+    if not (isinstance(node, ast.Call) and getattr(node.func, 'attr', '') == 'array' and node.args):
+        raise TranslationError('np.array([...]) expected')
+    lit = node.args[0]
+    if not isinstance(lit, ast.List):
+        raise TranslationError('list literal expected')
+    if lit.elts and isinstance(lit.elts[0], ast.List):
+        return [[_dec(e) for e in row.elts] for row in lit.elts]
+    return [_dec(e) for e in lit.elts]
+
+
+def _choose(fn, target):
+    """`target = np.choose(x <= c, [alt0, alt1])` -> (c, alt0 name, alt1 name)"""
+    val = _py_assign(fn, target) if target else None
+    if val is None:
+        for n in ast.walk(fn):
+            if isinstance(n, ast.Return) and isinstance(n.value, ast.Call) and getattr(n.value.func, 'attr', '') == 'choose':
+                val = n.value
+    if not (isinstance(val, ast.Call) and getattr(val.func, 'attr', '') == 'choose' and len(val.args) == 2):
+        raise TranslationError(f'np.choose(...) expected for {target}')
+    cond, alts = val.args
+    if not (isinstance(cond, ast.Compare) and len(cond.ops) == 1 and isinstance(cond.ops[0], ast.LtE)
+            and isinstance(alts, ast.List) and len(alts.elts) == 2 and all(isinstance(e, ast.Name) for e in alts.elts)):
+        raise TranslationError(f'np.choose(x <= c, [a, b]) expected for {target}')
+    return cond.comparators[0], alts.elts[0].id, alts.elts[1].id
+
+
+def extract_colors(repo: Path) -> dict:
+    tree = ast.parse((repo / 'mahotas' / 'colors.py').read_text())
+    out = {}
+    f = _func(tree, 'rgb2grey')
+    out['grey'] = _np_array_literal(_py_assign(f, 'transform'))
+    f = _func(tree, 'rgb2xyz')
+    out['rgb2xyz'] = _np_array_literal(_py_assign(f, 'transformation'))
+    out['a_fwd'] = _dec(_py_assign(f, 'a'))
+    hi = _py_assign(f, 'rgb_linear_high')          # np.power((rgb + a)/(1.+a), 2.4)
+    if not (isinstance(hi, ast.Call) and getattr(hi.func, 'attr', '') == 'power' and len(hi.args) == 2):
+        raise TranslationError('rgb_linear_high = np.power(..., gamma) expected')
+    out['gamma'] = _dec(hi.args[1])
+    lo = _py_assign(f, 'rgb_linear_low')           # rgb/12.92
+    if not (isinstance(lo, ast.BinOp) and isinstance(lo.op, ast.Div)):
+        raise TranslationError('rgb_linear_low = rgb/slope expected')
+    out['slope'] = _dec(lo.right)
+    sc = _py_assign(f, 'rgb')                      # rgb/255.
+    if not (isinstance(sc, ast.BinOp) and isinstance(sc.op, ast.Div)):
+        raise TranslationError('rgb = rgb/255. expected')
+    out['scale'] = _dec(sc.right)
+    c, a0, a1 = _choose(f, 'rgb_linear')
+    out['knee_fwd'] = _dec(c)
+    if {a0, a1} != {'rgb_linear_low', 'rgb_linear_high'}:
+        raise TranslationError('rgb2xyz: unexpected np.choose alternatives')
+    out['fwd_low_when_below'] = (a1 == 'rgb_linear_low')      # np.choose takes alternative 1 where the test is true
+    f = _func(tree, 'xyz2rgb')
+    out['xyz2rgb'] = _np_array_literal(_py_assign(f, 'transformation'))
+    out['a_inv'] = _dec(_py_assign(f, 'a'))
+    c, a0, a1 = _choose(f, 'srgb')
+    out['knee_inv'] = _dec(c)
+    if {a0, a1} != {'srgb_low', 'srgb_high'}:
+        raise TranslationError('xyz2rgb: unexpected np.choose alternatives')
+    out['inv_low_when_below'] = (a1 == 'srgb_low')
+    lo = _py_assign(f, 'srgb_low')                 # 12.92 * rgb_linear
+    if not (isinstance(lo, ast.BinOp) and isinstance(lo.op, ast.Mult)):
+        raise TranslationError('srgb_low = slope * rgb_linear expected')
+    out['slope_inv'] = _dec(lo.left)
+    f = _func(tree, 'xyz2lab')
+    g = _func(f, 'f')
+    c, a0, a1 = _choose(g, None)
+    if {a0, a1} != {'branch_small', 'branch_large'}:
+        raise TranslationError('xyz2lab: unexpected np.choose alternatives')
+    out['lab_small_when_below'] = (a1 == 'branch_small')
+    # threshold (6./29)**k
+    if not (isinstance(c, ast.BinOp) and isinstance(c.op, ast.Pow) and isinstance(c.left, ast.BinOp)
+            and isinstance(c.left.op, ast.Div)):
+        raise TranslationError('xyz2lab threshold (6./29)**k expected')
+    out['lab_delta_num'] = _dec(c.left.left)
+    out['lab_delta_den'] = _dec(c.left.right)
+    out['lab_knee_exp'] = int(_dec(c.right))
+    wp = None
+    for n in ast.walk(f):
+        if isinstance(n, ast.Assign) and isinstance(n.targets[0], ast.Tuple) and \
+                [getattr(e, 'id', '') for e in n.targets[0].elts] == ['xn', 'yn', 'zn']:
+            wp = [_dec(e) for e in n.value.elts]
+    if wp is None:
+        raise TranslationError('xn, yn, zn = ... not found')
+    out['white'] = wp
+    f = _func(tree, 'rgb2sepia')
+    out['sepia'] = _np_array_literal(_py_assign(f, 'rgb2sepia_weights'))
+    return out
+
+
+def _q(q):
+    """Lean term for an exact rational, usable at Rat and (as a decimal literal) at Float"""
+    return f'({q.numerator} : Rat) / {q.denominator}'
+
+
+def _fl(q):
+    """decimal Float literal with the same value (every extracted number is a finite decimal)"""
+    k = 0
+    while (q * 10 ** k).denominator != 1:
+        k += 1
+        if k > 40:
+            raise TranslationError(f'not a finite decimal: {q}')
+    num = int(q * 10 ** k)
+    digits = str(abs(num)).rjust(k + 1, '0')
+    txt = (digits[:-k] + '.' + digits[-k:]) if k else (digits + '.0')
+    return f'({"-" if num < 0 else ""}{txt} : Float)'
+
+
+def lean_colors(c: dict) -> list[str]:
+    def mat(name, m, doc):
+        rows_q = ', '.join('[' + ', '.join(_q(x) for x in row) + ']' for row in m)
+        rows_f = ', '.join('[' + ', '.join(_fl(x) for x in row) + ']' for row in m)
+        return [f'/-- {doc} (exact rationals of the decimal literals) -/',
+                f'def {name}Q : List (List Rat) := [{rows_q}]',
+                f'/-- {doc} (the same literals as doubles) -/',
+                f'def {name}F : List (List Float) := [{rows_f}]']
+    def vec(name, v, doc):
+        return [f'/-- {doc} -/',
+                f'def {name}Q : List Rat := [' + ', '.join(_q(x) for x in v) + ']',
+                f'def {name}F : List Float := [' + ', '.join(_fl(x) for x in v) + ']']
+    def sc(name, q, doc):
+        return [f'/-- {doc} -/', f'def {name}Q : Rat := {_q(q)}', f'def {name}F : Float := {_fl(q)}']
+    s = ['/-! ## C20: colors.py -/']
+    s += mat('rgb2xyzM', c['rgb2xyz'], '`transformation` of `rgb2xyz`')
+    s += mat('xyz2rgbM', c['xyz2rgb'], '`transformation` of `xyz2rgb`')
+    s += mat('sepiaM', c['sepia'], '`rgb2sepia_weights`')
+    s += vec('greyW', c['grey'], '`transform` of `rgb2grey`')
+    s += vec('labWhite', c['white'], '`xn, yn, zn` of `xyz2lab`')
+    s += sc('srgbA', c['a_fwd'], '`a` of `rgb2xyz`')
+    s += sc('srgbAInv', c['a_inv'], '`a` of `xyz2rgb`')
+    s += sc('srgbGamma', c['gamma'], 'exponent of the power branch of `rgb2xyz`')
+    s += sc('srgbSlope', c['slope'], 'divisor of the linear branch of `rgb2xyz`')
+    s += sc('srgbSlopeInv', c['slope_inv'], 'factor of the linear branch of `xyz2rgb`')
+    s += sc('srgbScale', c['scale'], '`rgb/255.`')
+    s += sc('srgbKnee', c['knee_fwd'], 'threshold of `np.choose` in `rgb2xyz`')
+    s += sc('srgbKneeInv', c['knee_inv'], 'threshold of `np.choose` in `xyz2rgb`')
+    s += sc('labDeltaNum', c['lab_delta_num'], 'numerator of `6./29` in `xyz2lab`')
+    s += sc('labDeltaDen', c['lab_delta_den'], 'denominator of `6./29` in `xyz2lab`')
+    s += ['/-- exponent `k` of the threshold `(6./29)**k` in `xyz2lab` -/',
+          f'def labKneeExp : Nat := {c["lab_knee_exp"]}',
+          '/-- `np.choose(test, [a0, a1])` takes `a1` where the test holds: is `a1` the linear (low) branch? -/',
+          f'def fwdLowWhenBelow : Bool := {str(c["fwd_low_when_below"]).lower()}',
+          f'def invLowWhenBelow : Bool := {str(c["inv_low_when_below"]).lower()}',
+          f'def labSmallWhenBelow : Bool := {str(c["lab_small_when_below"]).lower()}', '']
+    return s
+
+
+# ----------------------------------------------------------------------------------------------
+# C19: direction tables of texture.py, factorial table of _zernike.cpp
+
+def extract_texture(repo: Path) -> dict:
+    tree = ast.parse((repo / 'mahotas' / 'features' / 'texture.py').read_text())
+    out = {}
+    for name in ('_2d_deltas', '_3d_deltas'):
+        val = _py_assign(tree, name)
+        if not isinstance(val, ast.List):
+            raise TranslationError(f'{name}: list literal expected')
+        rows = []
+        for t in val.elts:
+            if not isinstance(t, ast.Tuple):
+                raise TranslationError(f'{name}: tuple expected')
+            rows.append([int(_dec(e)) for e in t.elts])
+        out[name] = rows
+    return out
+
+
+def extract_factorials(repo: Path) -> list[int]:
+    src = (repo / 'mahotas' / 'features' / '_zernike.cpp').read_text()
+    m = re.search(r'double\s+_factorialtable\[\]\s*=\s*\{(.*?)\};', src, flags=re.S)
+    if not m:
+        raise TranslationError('_factorialtable not found')
+    try:
+        return [int(x) for x in m.group(1).replace('\n', ' ').split(',') if x.strip()]
+    except ValueError as e:
+        raise TranslationError(f'_factorialtable: {e}')
+
+
+def lean_texture(t: dict, fact: list[int]) -> list[str]:
+    def tab(rows):
+        return '[' + ', '.join('[' + ', '.join(str(x) for x in r) + ']' for r in rows) + ']'
+    return ['/-! ## C19: texture.py direction tables, _zernike.cpp factorial table -/',
+            '/-- `_2d_deltas` -/', 'def deltas2d : List (List Int) := ' + tab(t['_2d_deltas']),
+            '/-- `_3d_deltas` -/', 'def deltas3d : List (List Int) := ' + tab(t['_3d_deltas']),
+            '/-- `_factorialtable` -/', 'def factorialTable : List Nat := ' + lean_list(fact), '']
+
+
 def lean_list(xs):
     return '[' + ', '.join(str(x) for x in xs) + ']'
 
@@ -85,9 +293,16 @@ def generate(repo: Path, outdir: Path) -> dict:
          'def translateSizes : List (Nat × Nat × Nat) := [' + ', '.join(f'({a}, {b}, {c})' for a, b, c in ts) + ']',
          '/-- the literal 2-D default cross of `get_structuring_elem` -/',
          'def defaultCross : List Int := ' + lean_list([x for row in cross for x in row]),
-         '', 'end Mahotas.Generated', '']
+         '']
+    col = extract_colors(repo)
+    s += lean_colors(col)
+    tex = extract_texture(repo)
+    fact = extract_factorials(repo)
+    s += lean_texture(tex, fact)
+    s += ['end Mahotas.Generated', '']
     changed = _write_if_changed(outdir / 'Tables.lean', '\n'.join(s))
-    return dict(tables_changed=changed, modes=len(py), translate_sizes=len(ts))
+    return dict(tables_changed=changed, modes=len(py), translate_sizes=len(ts), colour_constants=len(col),
+                directions_2d=len(tex['_2d_deltas']), directions_3d=len(tex['_3d_deltas']), factorials=len(fact))
 
 
 if __name__ == '__main__':
